@@ -26,6 +26,11 @@
 #include "P11Attributes.h"
 #include "P11Objects.h"
 #include "SoftHSM.h"
+#include "ObjectFile.h"
+#include "OSAttributes.h"
+#include "RFC4880.h"
+#include <fstream>
+#include <unistd.h>
 #undef protected
 #undef private
 
@@ -148,6 +153,39 @@ int main() {
 		}
 		printf("\n ],\n");
 		if (rv == CKR_OK) C_Finalize(NULL_PTR);
+	}
+	// ---- the object-file writer, by execution: an object with one attribute of every kind is stored by the real ObjectFile and read back as bytes ----
+	{
+		char tmpl[] = "/tmp/verif-storedump-XXXXXX"; char* d = mkdtemp(tmpl);
+		std::string path = std::string(d) + "/sample.object", lock = std::string(d) + "/sample.lock";
+		{
+			ObjectFile of(NULL, path, 077, lock, true);
+			of.startTransaction(OSObject::ReadWrite);
+			of.setAttribute(CKA_CLASS, OSAttribute((unsigned long)CKO_SECRET_KEY));
+			of.setAttribute(CKA_TOKEN, OSAttribute(true));
+			of.setAttribute(CKA_PRIVATE, OSAttribute(false));
+			of.setAttribute(CKA_LABEL, OSAttribute(ByteString("6c6162656c")));
+			of.setAttribute(CKA_ID, OSAttribute(ByteString("")));
+			std::set<CK_MECHANISM_TYPE> ms; ms.insert(CKM_AES_CBC); ms.insert(CKM_AES_ECB); ms.insert(CKM_SHA256_HMAC);
+			of.setAttribute(CKA_ALLOWED_MECHANISMS, OSAttribute(ms));
+			std::map<CK_ATTRIBUTE_TYPE, OSAttribute> am;
+			am.insert(std::pair<CK_ATTRIBUTE_TYPE, OSAttribute>(CKA_ENCRYPT, OSAttribute(true)));
+			am.insert(std::pair<CK_ATTRIBUTE_TYPE, OSAttribute>(CKA_VALUE_LEN, OSAttribute((unsigned long)32)));
+			am.insert(std::pair<CK_ATTRIBUTE_TYPE, OSAttribute>(CKA_LABEL, OSAttribute(ByteString("696e6e6572"))));
+			am.insert(std::pair<CK_ATTRIBUTE_TYPE, OSAttribute>(CKA_ALLOWED_MECHANISMS, OSAttribute(ms)));
+			of.setAttribute(CKA_WRAP_TEMPLATE, OSAttribute(am));
+			of.setAttribute(CKA_OS_TOKENFLAGS, OSAttribute((unsigned long)0x42D));
+			of.commitTransaction();
+		}
+		std::ifstream f(path.c_str(), std::ios::binary); std::vector<unsigned char> c((std::istreambuf_iterator<char>(f)), std::istreambuf_iterator<char>());
+		printf(" \"store_sample\": \"");
+		for (size_t i = 0; i < c.size(); i++) printf("%02x", c[i]);
+		printf("\",\n");
+		unlink(path.c_str()); unlink(lock.c_str()); rmdir(d);
+		printf(" \"store_consts\": {\"CKA_OS_TOKENLABEL\": %lu, \"CKA_OS_TOKENSERIAL\": %lu, \"CKA_OS_TOKENFLAGS\": %lu, \"CKA_OS_SOPIN\": %lu, \"CKA_OS_USERPIN\": %lu, "
+		       "\"PBE_ITERATION_BASE_COUNT\": %lu, \"MIN_PIN_LEN\": %lu, \"MAX_PIN_LEN\": %lu},\n",
+		       (unsigned long)CKA_OS_TOKENLABEL, (unsigned long)CKA_OS_TOKENSERIAL, (unsigned long)CKA_OS_TOKENFLAGS, (unsigned long)CKA_OS_SOPIN, (unsigned long)CKA_OS_USERPIN,
+		       (unsigned long)PBE_ITERATION_BASE_COUNT, (unsigned long)MIN_PIN_LEN, (unsigned long)MAX_PIN_LEN);
 	}
 	printf(" \"end\": 0\n}\n");
 	return 0;
